@@ -108,6 +108,18 @@ func upContent(f UpFile) []byte {
 	return b
 }
 
+// dupListed: some plain name is listed more than once.
+func dupListed(c UploadCase) bool {
+	seen := map[string]bool{}
+	for _, f := range c.Files {
+		if seen[f.Name] {
+			return true
+		}
+		seen[f.Name] = true
+	}
+	return false
+}
+
 func plainName(n string) bool { return n != "" && !strings.Contains(n, "/") && n != "." && n != ".." }
 
 func genUploadCase(t *rapid.T) UploadCase {
@@ -136,6 +148,13 @@ func genUploadCase(t *rapid.T) UploadCase {
 			uf.Link = rapid.IntRange(1, 2).Draw(t, "srcLinkKind")
 		}
 		c.Files = append(c.Files, uf)
+	}
+	if len(c.Files) >= 2 && !adversarial && rapid.IntRange(0, 9).Draw(t, "dupName") == 0 {
+		// the same file listed twice (a .changes put together by hand): names that sort before and
+		// after the control file's are both around
+		i := rapid.IntRange(0, len(c.Files)-1).Draw(t, "dupWhich")
+		c.Files = append(c.Files, c.Files[i])
+		c.Files = append(c.Files, UpFile{Name: "zzz_last.tar", Size: 3, Seed: 7}, UpFile{Name: "aaa_first.tar", Size: 3, Seed: 8})
 	}
 	nops := rapid.SampledFrom([]int{1, 1, 1, 2, 3}).Draw(t, "nops")
 	for i := 0; i < nops; i++ {
@@ -352,10 +371,15 @@ func checkUploadCase(c UploadCase, r *Recorder) error {
 	os.WriteFile(filepath.Join(root, "d1", "planted"), []byte("PLANTED-IN-D1"), 0o644)
 	os.WriteFile(filepath.Join(root, "outside", "real.dsc"), []byte("Format: 3.0 (quilt)\nSource: elsewhere\nBinary: elsewhere\nArchitecture: any\nVersion: 1.0-1\nMaintainer: A B <a@b.c>\nFiles:\n 00000000000000000000000000000000 23 victim\n"), 0o644)
 	// referenced files: materialise those that resolve inside src
+	written := map[string]bool{}
 	for fi, f := range c.Files {
 		if f.Name == c.ctlName() {
 			continue // the control file itself, written below
 		}
+		if written[f.Name] {
+			continue // a name listed twice is one file: the first entry says what is in it
+		}
+		written[f.Name] = true
 		p := filepath.Join(root, "src", f.Name)
 		if rel, err := filepath.Rel(filepath.Join(root, "src"), p); err == nil && !strings.HasPrefix(rel, "..") && rel != "." {
 			os.MkdirAll(filepath.Dir(p), 0o755)
@@ -642,6 +666,16 @@ func checkUploadCase(c UploadCase, r *Recorder) error {
 				return errf("%s of a control file that lists itself failed (%v) and the control file is no longer intact at its source", op.Kind, operr)
 			}
 			return nil
+		} else if dupListed(c) && operr != nil && op.Kind != "copy" {
+			// a name listed twice: the second rename / unlink finds nothing - failing is fine, with the
+			// control file where it was and not in the destination
+			if b, err := os.ReadFile(filepath.Join(locDir, c.ctlName())); err != nil || !bytes.Equal(b, ctlBefore) {
+				return errf("%s of an upload that lists %v (a name twice) failed (%v) and the control file is no longer intact at its source", op.Kind, upNames(c.Files), operr)
+			}
+			if isRegular(ctlInDst) && op.Kind != "remove" && ctlInDstErr != nil {
+				return errf("%s of an upload that lists %v (a name twice) failed (%v) but the control file is in the destination", op.Kind, upNames(c.Files), operr)
+			}
+			return nil
 		} else if operr != nil {
 			return errf("%s %d of a plain upload (%d files) failed: %v", op.Kind, oi, len(c.Files), operr)
 		}
@@ -664,6 +698,12 @@ func checkUploadCase(c UploadCase, r *Recorder) error {
 					continue
 				}
 				b, err := os.ReadFile(filepath.Join(dstDir, f.Name))
+				for _, g := range c.Files {
+					if g.Name == f.Name {
+						f = g // (a name listed twice: the first entry says what is in the file)
+						break
+					}
+				}
 				if err != nil || !bytes.Equal(b, upContent(f)) {
 					return errf("after %s the file %s in the destination is missing or not byte-identical (%d bytes, err %v; want %d bytes)", op.Kind, f.Name, len(b), err, f.Size)
 				}
@@ -716,7 +756,7 @@ func upNames(fs []UpFile) []string {
 
 var specC20 = Register(&Spec[UploadCase]{
 	Prop: "C20", Name: "upload",
-	Rule:  "histories of 1..3 operations (Copy/Move into d1|d2, Remove) on one .dsc or .changes handle over a fresh scratch tree root/{src,src/sub,d1,d2,outside}; 0..5 referenced files (sizes 0, 1, 7, 300, 32767..32769, 100000; one plain name in twenty is 200..255 bytes long; one file in ten is listed with a size that is not its real one - the hashes are made up anyway, nothing in the statement makes Copy/Move verify either); a quarter of the uploads list adversarial names ('../outside/victim', '../d1/planted', 'sub/x', absolute, '..', '.', '/', '//', '../', 'sub/../../outside/victim') and/or carry a literal 'Filename:' field pointing elsewhere, and a third of those have no Files field at all (Checksums-Sha256 only) or list the adversarial names in Checksums-Sha256 only; in a quarter of the cases both destinations already hold same-named files of the same length with other bytes (leftovers of an earlier upload); in a fifth of the cases d2 is on another file system (/dev/shm, when there is one), where a Move may fail as a whole but must not half-succeed; in a sixth of the cases the destination of the last operation holds a planted symbolic link to root/outside/victim under the name of a referenced file or of the control file; one listed file in eight is a symbolic link in the source directory to the real file in src/sub (relative or absolute target); one destination in six is named as <symlink>/.. with the link leading to a directory inside the destination, and same-named files are planted one level above (where a path cleaned as text would land); in a third of the .changes cases a listed .dsc is a real one whose own Files field names ../outside/victim and sub/inner (nobody asked for the files a listed file lists); in an eighth the control file lists itself (refusing is fine, but then nothing may have moved and the control file is not in the destination); in a quarter (half of the self-listing ones) the handle comes from ParseDsc / ParseChanges(reader, path) with the path spelled src/./x.dsc, src/../src/x.dsc or //src/x.dsc, or from Parse*File of ../x.dsc called in a working directory that was entered through a symbolic link ($PWD logical); an operation whose destination is the directory the upload already lives in (also spelled d1/../src/.) must leave that directory bit-identical whatever it returns; the last operation optionally runs with ONE planted fault at step i in {file 0..n-1, control file}: source deleted, source replaced by a non-empty directory, a non-empty directory squatting on the destination name, destination directory missing or a regular file. Oracle: success (plain names, no fault) => all files and the control file byte-identical in the destination (Move: gone from source; Remove: gone), handle.Filename == dest/base; fault => an error, no regular control file in the destination, for Move/Remove the control file intact at its source; always => root/outside bit-identical, no destination file carries outside content, d1/planted untouched when d1 is not involved. Non-trivial: >= 2 files with a fault at step >= 1, or non-plain names; distinct by case.",
+	Rule:  "histories of 1..3 operations (Copy/Move into d1|d2, Remove) on one .dsc or .changes handle over a fresh scratch tree root/{src,src/sub,d1,d2,outside}; 0..5 referenced files (sizes 0, 1, 7, 300, 32767..32769, 100000; one plain name in twenty is 200..255 bytes long; one file in ten is listed with a size that is not its real one - the hashes are made up anyway, nothing in the statement makes Copy/Move verify either); a quarter of the uploads list adversarial names ('../outside/victim', '../d1/planted', 'sub/x', absolute, '..', '.', '/', '//', '../', 'sub/../../outside/victim') and/or carry a literal 'Filename:' field pointing elsewhere, and a third of those have no Files field at all (Checksums-Sha256 only) or list the adversarial names in Checksums-Sha256 only; in a quarter of the cases both destinations already hold same-named files of the same length with other bytes (leftovers of an earlier upload); in a fifth of the cases d2 is on another file system (/dev/shm, when there is one), where a Move may fail as a whole but must not half-succeed; in a sixth of the cases the destination of the last operation holds a planted symbolic link to root/outside/victim under the name of a referenced file or of the control file; one listed file in eight is a symbolic link in the source directory to the real file in src/sub (relative or absolute target); one destination in six is named as <symlink>/.. with the link leading to a directory inside the destination, and same-named files are planted one level above (where a path cleaned as text would land); one upload in ten lists a name twice (Move / Remove may then fail at the second occurrence - with the control file untouched); in a third of the .changes cases a listed .dsc is a real one whose own Files field names ../outside/victim and sub/inner (nobody asked for the files a listed file lists); in an eighth the control file lists itself (refusing is fine, but then nothing may have moved and the control file is not in the destination); in a quarter (half of the self-listing ones) the handle comes from ParseDsc / ParseChanges(reader, path) with the path spelled src/./x.dsc, src/../src/x.dsc or //src/x.dsc, or from Parse*File of ../x.dsc called in a working directory that was entered through a symbolic link ($PWD logical); an operation whose destination is the directory the upload already lives in (also spelled d1/../src/.) must leave that directory bit-identical whatever it returns; the last operation optionally runs with ONE planted fault at step i in {file 0..n-1, control file}: source deleted, source replaced by a non-empty directory, a non-empty directory squatting on the destination name, destination directory missing or a regular file. Oracle: success (plain names, no fault) => all files and the control file byte-identical in the destination (Move: gone from source; Remove: gone), handle.Filename == dest/base; fault => an error, no regular control file in the destination, for Move/Remove the control file intact at its source; always => root/outside bit-identical, no destination file carries outside content, d1/planted untouched when d1 is not involved. Non-trivial: >= 2 files with a fault at step >= 1, or non-plain names; distinct by case.",
 	Check: checkUploadCase,
 })
 
